@@ -132,6 +132,7 @@ func ExtraSchemas() []gschema.Schema {
 		out = append(out, ShapesSchema(n))
 	}
 	out = append(out, StructDefaultSchemas()...)
+	out = append(out, UnionListSchemas()...)
 	return out
 }
 
@@ -139,7 +140,10 @@ func ExtraSchemas() []gschema.Schema {
 func Schemas(thorough bool, shapeConstants bool) []gschema.Schema {
 	seen := map[string]bool{}
 	var out []gschema.Schema
-	for _, s := range append(gschema.Enumerate(thorough), ExtraSchemas()...) {
+	all := append(gschema.Enumerate(thorough), ExtraSchemas()...)
+	all = append(all, MixedSchemas(thorough)...)
+	all = append(all, DeepSchemas(thorough)...)
+	for _, s := range all {
 		if !shapeConstants && shapeConsts(s) > 0 {
 			continue // the constant members only matter to the converters' choice of a builder (C14)
 		}
@@ -292,6 +296,23 @@ type IR struct {
 
 func (ir *IR) Builder(name string) (ast.Builder, bool) { return ir.BuilderIn(gschema.Pkg, name) }
 
+// BuilderFor is the builder of the object `object`, when exactly one builder builds it.
+func (ir *IR) BuilderFor(pkg, object string) (ast.Builder, bool) {
+	if ir == nil {
+		return ast.Builder{}, false
+	}
+	var found []ast.Builder
+	for _, b := range ir.Ctx.Builders {
+		if b.Package == pkg && b.For.Name == object && b.For.SelfRef.ReferredPkg == pkg {
+			found = append(found, b)
+		}
+	}
+	if len(found) != 1 {
+		return ast.Builder{}, false
+	}
+	return found[0], true
+}
+
 func (ir *IR) BuilderIn(pkg, name string) (ast.Builder, bool) {
 	if ir == nil {
 		return ast.Builder{}, false
@@ -377,6 +398,9 @@ func formatsFor(s gschema.Schema, thorough bool) []string {
 		return gschema.Formats
 	}
 	special := false
+	if isFamily(s) {
+		return []string{"jsonschema"} // what these families exercise is decided after the front-ends
+	}
 	for _, o := range s.Objs {
 		walkTerm(o.T, func(t gschema.Term) {
 			if t.Constr || t.Default == StructDefault {
@@ -422,6 +446,7 @@ func Prepare(ws *genrun.Workspace, o Opts) (*Prepared, error) {
 	variants := append([]Variant{{Name: ""}}, Variants()...)
 	variants = append(variants, ScenarioVariants()...)
 	variants = append(variants, BoundsVariant())
+	variants = append(variants, FamilyVariants()...)
 	var units []genrun.Unit
 	haveUnit := map[string]bool{}
 	for i, s := range p.Schemas {
@@ -450,7 +475,7 @@ func Prepare(ws *genrun.Workspace, o Opts) (*Prepared, error) {
 				}
 				twins := []string{""}
 				// quick: two-package units for the JSON Schema rendering of one-member roots only
-				if o.Twins && twinVariants[v.Name] && (o.Thorough || f == "jsonschema" && len(s.Objs[0].T.Sub) == 1) {
+				if o.Twins && twinVariants[v.Name] && (o.Thorough || f == "jsonschema" && len(s.Objs[0].T.Sub) == 1 && !isFamily(s)) {
 					twins = []string{"", "p", "q"}
 				}
 				for _, tw := range twins {
